@@ -57,6 +57,7 @@ class Prop(object):
             u.append(('payloads', {'lo': lo, 'hi': min(lo + 25, top + 1), 'seed': seed}))
         u.append(('smallcrc', {}))
         u.append(('objects', {}))
+        u.append(('headerhist', {}))
         u.append(('wrongkind', {}))
         for i in range(10):
             u.append(('corrupt', {'index': i, 'seed': seed}))
@@ -231,6 +232,55 @@ class Prop(object):
                 if probs:
                     r.viol('object', {'kind': oc, 'obj': name}, case, '%s with headers %r: %s' % (name, hdrs, '; '.join(probs[:3])))
         r.samples.append({'objects': sorted(objs)})
+        return r
+
+    def c_headerhist(self, case):
+        """Armor headers belong to one object: every ordered pair of objects (loaded from armor with and without header lines, or built), a header set on
+        the first, then the second and a third loaded afterwards are written out - they carry exactly the headers supplied to them."""
+        import itertools
+        r = Res()
+        objs, keep = self._objects()
+        texts = {}
+        for name, (obj, label, cls) in objs.items():
+            if name.startswith('large'):
+                continue
+            obj.ascii_headers.clear()
+            texts[name] = (str(obj), cls)
+        only = case.get('only')
+        for a, b in itertools.product(sorted(texts), repeat=2):
+            for with_hdr in (False, True):
+                key = '%s|%s|%s' % (a, b, with_hdr)
+                if only and key != only:
+                    continue
+                r.states += 1
+                r.transitions += 4
+                probs = []
+                try:
+                    ta, ca = texts[a]
+                    tb, cb = texts[b]
+                    if with_hdr:
+                        # the first block arrives with a header line of its own
+                        ta = ta.replace('\n\n', '\nComment: came with the first\n\n', 1) if not ta.startswith('-----BEGIN PGP SIGNED') else ta
+                    x = self._load(ca, ta)
+                    y = self._load(cb, tb)
+                    x.ascii_headers['Version'] = 'set on the first object'
+                    z = self._load(cb, tb)
+                    for who, o in (('the second object (loaded before the header was set)', y), ('a third object (loaded afterwards)', z)):
+                        if dict(o.ascii_headers):
+                            probs.append('%s carries headers %r that were never supplied to it' % (who, dict(o.ascii_headers)))
+                        if str(o) != tb:
+                            probs.append('%s is written out differently from the armor it was loaded from' % who)
+                    want = {'Version': 'set on the first object'}
+                    if with_hdr and not ta.startswith('-----BEGIN PGP SIGNED'):
+                        want['Comment'] = 'came with the first'
+                    if dict(x.ascii_headers) != want:
+                        probs.append('the first object carries %r, supplied %r' % (dict(x.ascii_headers), want))
+                except Exception as e:
+                    probs.append('raises %r' % (e,))
+                r.outcomes['headerhist:' + ('ok' if not probs else 'violation')] += 1
+                if probs:
+                    r.viol('headerhist', {'kind': 'headers-shared', 'first_had_headers': with_hdr}, dict(case, only=key), 'first %s, then %s: %s' % (a, b, '; '.join(probs[:2])))
+        r.samples.append({'pairs': len(texts) ** 2})
         return r
 
     def c_wrongkind(self, case):
